@@ -939,3 +939,9 @@ def b_instr_note(tier, rnd):
     return {"rule": "4 instruments x notes 0..127 + exotic spellings", "cases":
             [(i, Note().from_int(k)) for i in instrs for k in range(0, 128)] +
             [(i, Note(n, o)) for i in instrs for n in ("Cb", "B#", "E##") for o in (0, 3, 8)]}
+
+
+@battery("numeral_tuples")
+def b_numeral_tuples(tier, rnd):
+    return {"rule": "7 numerals x accidental counts -14..8 x 6 suffixes",
+            "cases": [((r, a, s),) for r in NUMS for a in range(-14, 9) for s in ("", "7", "m", "dim7", "M7", "dom7")]}
